@@ -521,7 +521,9 @@ func racItemPool() []ast.ItemNode {
 	add(func() ast.ItemNode {
 		return ast.NewListNode(ast.NewIntNode(1, 1), ast.NewListNode(ast.NewASCIINode("x\"y"), ast.NewBooleanNode(true)), ast.NewListNode(), ast.NewUintNode(2, 7))
 	})
-	add(func() ast.ItemNode { return ast.NewListNode(ast.NewUintNode(1, "av"), "nv", "...[0]", ast.NewASCIINode("end")) })
+	add(func() ast.ItemNode {
+		return ast.NewListNode(ast.NewUintNode(1, "av"), "nv", "...[0]", ast.NewASCIINode("end"))
+	})
 	add(func() ast.ItemNode {
 		return ast.NewListNode(ast.NewListNode(ast.NewUintNode(1, "av"), "...[0]"), "...[1]", ast.NewListNode(ast.NewASCIINodeVariable("sv", 1, 2), "qv", "...[2]"))
 	})
